@@ -14,6 +14,34 @@ TECH = "bounded model checking of the compiled Rust (Kani 0.68 -> CBMC 6.11 -> C
 
 # property -> (design section, level text, level note)
 CLAIMS = {
+    "C01": ("5/C01",
+            "Widths {0,1,2,7,8,63,64,65,127,128,129,192,250,256,320,512}: every operand pair for all "
+            "add/sub/neg/abs_diff methods (value and overflow/None/saturation), all six operator shapes and both unary "
+            "minus shapes, and Sum over 0..=3 elements, against a u128-carry limb reference; SAT-decided with "
+            "unwinding assertions.",
+            "Bounded: widths listed (quick: {0,1,7,63,64,65,128,250}); sums of at most 3 elements; Kani std models."),
+    "C05": ("5/C05",
+            "Widths {0,1,2,7,8,63,64,65,127,128,129,192,250,256}: every value x every usize shift amount x every bit "
+            "position (one symbolic index) for all shl/shr method forms incl. exact lost-bit flags, arithmetic_shr, "
+            "<< >> <<= >>= for 10 primitive amount types (non-negative amounts) and for Uint-typed amounts of any "
+            "magnitude; rotations for amounts 0..=65535 (any usize for widths <= 65 in the thorough tier).",
+            "Bounded: widths listed (quick subset {0,1,7,64,65,128,250}; all ten amount types only at 65 bits in "
+            "quick); rotate amounts above 65535 only at widths <= 65 (thorough); negative signed amounts excluded as "
+            "the property states."),
+    "C06": ("5/C06",
+            "Widths {0,1,2,7,8,63,64,65,127,128,129,192,250,256}: every value (pair) x every index: ! & | ^ in all "
+            "shapes per bit, bit/set_bit with frame condition, byte/checked_byte incl. the out-of-range panic, all "
+            "counting functions characterised positionally, reverse_bits, most_significant_bits, "
+            "(checked_)next_power_of_two incl. panic iff None.",
+            "Bounded: widths listed (quick subset {0,1,7,64,65,128,250}); indices are any usize."),
+    "C07": ("5/C07",
+            "Widths {0,1,7,8,15,16,31,32,33,63,64,65,70,127,128,129,192}: every value of all 13 primitive source "
+            "types (try_from result, error kind, payload, wrapping/saturating forms, from panics iff Err), every "
+            "limb slice of each length 0..=LIMBS+2 for the five from_limbs_slice forms, every Uint value into all 13 "
+            "primitive targets (TryFrom by value and reference, to/wrapping_to/saturating_to, payload fields), and "
+            "Uint->Uint over {0,1,7,64,65,128,192}^2.",
+            "Bounded: widths listed (quick subset); limb-slice lengths are concrete per harness because Kani/CBMC "
+            "mis-model symbolic-length copy_from_slice on [u64] (spurious counterexamples, see DESIGN 8)."),
     "C08": ("5/C08",
             "All 16 widths in {0,1,7,8,9,15,16,60,63,64,65,72,120,128,129,250}: every value x every byte position for "
             "the encoders (arrays, vectors, Cow, trimmed, copy-into-buffer with symbolic buffer length), and every byte "
